@@ -284,9 +284,11 @@ structure RunResult where
   fired : Bool
   trace : List Call
 
-/-- checks made before any transaction is opened (`ReplaceById`) -/
+/-- checks made before any transaction is opened (`ReplaceById`; `ImportCollection` reads and decodes
+    the file first) -/
 def Op.pre : Op → Option Err
   | .replaceById _ id d => if d.objectId ≠ id then some .idMismatch else none
+  | .importDocs _ none _ => some .badInput
   | _ => none
 
 /-- `Save` routes to `Insert` or `ReplaceById`; `ReplaceById` is `UpdateById` with a constant updater -/
@@ -297,12 +299,13 @@ def Op.route : Op → Op
   | .replaceById c id d => .updateById c id (.const d)
   | o => o
 
-/-- `ExportCollection`: `HasCollection` then `FindAll`, two read transactions -/
+/-- `ExportCollection`: `HasCollection` then `FindAll`, two read transactions; the fault schedule
+    runs on across them (`HasCollection` makes two store calls: begin and get) -/
 def execExport (c : Bytes) (kv : KVS) (φ : Faults) : Res Out × KVS × Bool × List Call :=
   match withTx false (Op.body likeFn fnFam (.hasCollection c)) φ kv with
   | (.err e, _, f1, t1) => (.err e, kv, f1, t1)
   | (.ok (.bool true), _, f1, t1) =>
-    match withTx false (Op.body likeFn fnFam (.findAll { coll := c })) (fun _ => false) kv with
+    match withTx false (Op.body likeFn fnFam (.findAll { coll := c })) (fun n => φ (n + 2)) kv with
     | (.ok (.docs ds), _, f2, t2) => (.ok (.docs (ds.map jsonTypeDoc)), kv, f1 || f2, t1 ++ t2)   -- what json.Marshal writes
     | (r2, _, f2, t2) => (r2, kv, f1 || f2, t1 ++ t2)
   | (.ok _, _, f1, t1) => (.err .collNotExist, kv, f1, t1)
